@@ -243,7 +243,7 @@ def corpus_cases():
 
 def run(tier, seed):
     R = C.Report(CID, tier, seed)
-    n = 480 if tier == 'quick' else 12000
+    n = 480 if tier == 'quick' else 10000
 
     P = R.proof_stage()
     proof_broken = not P['ok']
